@@ -5,8 +5,8 @@ import TapkeeVerif.Model.Project
 (`eigendecomposition_impl_dense`: `(A + Aᵀ)/2`; `DenseMatrixOperation`: `selfadjointView<Upper>`).
 
     mean = 0; for each sample: mean += x; mean /= N
-    C = 0;    for each sample: C.selfadjointView<Upper>().rankUpdate(x, 1.0);      -- upper triangle only
-    C /= N;   C.selfadjointView<Upper>().rankUpdate(mean, -1.0);                   -- upper triangle only
+    C = 0;    for each sample: x -= mean; C.selfadjointView<Upper>().rankUpdate(x, 1.0);   -- upper triangle only
+    C /= N;                                              -- (centred two-pass form: fix F-PCA-CANCEL)
     C.triangularView<StrictlyLower>() = C.transpose();                             -- mirror (fix F-PCA-TRI, 8822822)
     return C
 
@@ -19,10 +19,10 @@ variable [Add K] [Sub K] [Mul K] [Div K] [Zero K] [NatCast K]
 
 def computeMean (X : Mat N D K) : Vec D K := fun a => sumFin N (fun i => X i a) / (N : K)
 
-/-- the state of `covariance_matrix` after the two `rankUpdate`s: the upper triangle holds
-    `E[x xᵀ] − mean·meanᵀ`, the strictly lower triangle is still zero -/
+/-- the state of `covariance_matrix` after the `rankUpdate`s of the centred samples and `/= N`: the upper triangle holds
+    `(1/N) Σ (x − mean)(x − mean)ᵀ`, the strictly lower triangle is still zero -/
 def covarianceUpper (X : Mat N D K) (μ : Vec D K) : Mat D D K :=
-  fun a b => if a ≤ b then sumFin N (fun i => X i a * X i b) / (N : K) - μ a * μ b else 0
+  fun a b => if a ≤ b then sumFin N (fun i => (X i a - μ a) * (X i b - μ b)) / (N : K) else 0
 
 /-- `M.triangularView<StrictlyLower>() = M.transpose()` : entry `(a,b)` with `b < a` is overwritten by `M b a` -/
 def mirrorLower (A : Mat n n K) : Mat n n K := fun a b => if b < a then A b a else A a b
